@@ -17,8 +17,31 @@ func init() { register("C09", C09) }
 
 // csvModel models encoding/csv.Reader over already-split records.
 type csvModel struct {
-	recs [][]string
-	pos  int
+	recs     [][]string
+	pos      int
+	settings map[string]eval.Value
+}
+
+// SetField / GetField: the reader's options (FieldsPerRecord, ReuseRecord, LazyQuotes, ...) are remembered; a positive
+// FieldsPerRecord is enforced by Read, the others do not change what the model yields.
+func (m *csvModel) SetField(name string, v eval.Value) {
+	if m.settings == nil {
+		m.settings = map[string]eval.Value{}
+	}
+	m.settings[name] = v
+}
+
+func (m *csvModel) GetField(name string) eval.Value {
+	if v, ok := m.settings[name]; ok {
+		return v
+	}
+	switch name {
+	case "FieldsPerRecord":
+		return eval.K(0)
+	case "Comma":
+		return eval.K(',')
+	}
+	return false
 }
 
 func installCSV(ev *eval.Evaluator, recs [][]string) {
@@ -33,6 +56,9 @@ func installCSV(ev *eval.Evaluator, recs [][]string) {
 		}
 		r := m.recs[m.pos]
 		m.pos++
+		if n, ok := linConst(m.GetField("FieldsPerRecord")); ok && n > 0 && int(n) != len(r) {
+			return eval.Tuple{eval.Slice{}, eval.ErrVal{Msg: eval.S("record on line " + fmt.Sprint(m.pos) + ": wrong number of fields")}}
+		}
 		vs := make([]eval.Value, len(r))
 		for i, f := range r {
 			vs[i] = eval.S(f)
@@ -157,7 +183,7 @@ func consumerFields(c *core.Ctx) map[string]bool {
 }
 
 func C09(c *core.Ctx) {
-	c.Explanation("C09: for every sequence of a bounded family (all length-4 sequences over {A,C,G,T,N} against the references TGCA and GTAC, in batches of several records) the interpreted pipeline getLines -> updown.writeOutput (the CSV text it writes, split on commas) -> readCSVToUDLList / readCSVToUDLChan must reproduce the record getLines produced, on every field that the ranking code reads (the set of fields read is computed from the SSA of pkg/updown's consumers), including the query's input index; this decides the writer/reader schema agreement (header, column positions, '|' and '-' separators, a / a-b ranges, SNP position parsing) and the producer/consumer field agreement. The CSV header check and the empty-file check of both readers; FASTA paths: target conversion re-ordered by input index, query conversion not a pool, results stored by query index.")
+	c.Explanation("C09: for every sequence of a bounded family (all length-4 sequences over {A,C,G,T,N} against the references TGCA, GTAC and GTRC, in batches of several records) the interpreted pipeline getLines -> updown.writeOutput (the CSV text it writes, split on commas) -> readCSVToUDLList / readCSVToUDLChan must reproduce the record getLines produced, on every field that the ranking code reads (the set of fields read is computed from the SSA of pkg/updown's consumers), including the query's input index; this decides the writer/reader schema agreement (header, column positions, '|' and '-' separators, a / a-b ranges, SNP position parsing) and the producer/consumer field agreement. The CSV header check and the empty-file check of both readers; FASTA paths: target conversion re-ordered by input index, query conversion not a pool, results stored by query index.")
 	checkSoftGapReaders(c, "R6", "pkg/updown")
 	if tabs := extractTables(c, newEval(c), "R0w"); tabs.OK {
 		checkWorkersStateless(c, "R7", tabs, "pkg/updown")
@@ -217,7 +243,7 @@ func c09Inputs(c *core.Ctx) {
 	const batch = 6
 	var badList, badChan, badSchema []string
 	n := 0
-	for _, ref := range []string{"TGCA", "GTAC"} {
+	for _, ref := range []string{"TGCA", "GTAC", "GTRC"} { // the third has an ambiguity code: its SNP strings begin with a letter that is no base
 		for start := 0; start < len(seqs); start += batch {
 			end := start + batch
 			if end > len(seqs) {
